@@ -51,10 +51,23 @@ pub fn run(line: &str) -> String {
             sh.next = hout;
             sh.calls.clear();
         }
+        // `bf<n>`: n more descriptors attached to the last segment (descriptors in the middle of a message)
+        let nbody: usize = toks.iter().find(|t| t.starts_with("bf")).and_then(|t| t[2..].parse().ok()).unwrap_or(0);
+        let mut body_fds = Vec::new();
+        if segs.len() > 1 {
+            let mut sh = shared.lock().unwrap();
+            for _ in 0..nbody {
+                let fd = new_memfd(0);
+                sh.objs.insert(ino_of(fd).unwrap(), next_id);
+                next_id += 1;
+                body_fds.push(fd);
+            }
+        }
+        let last = segs.len() - 1;
         let write_seg = |i: usize| {
             let bytes = &segs[i];
             if !bytes.is_empty() {
-                let r = sendmsg(peer_fd, bytes, if i == 0 { &fds } else { &[] }, 0);
+                let r = sendmsg(peer_fd, bytes, if i == 0 { &fds } else if i == last { &body_fds } else { &[] }, 0);
                 assert!(r == bytes.len() as isize, "peer sendmsg failed: {}", r);
             }
         };
@@ -99,7 +112,7 @@ pub fn run(line: &str) -> String {
                 shutdown_wr(&peer);
             }
         }
-        for fd in fds.iter() {
+        for fd in fds.iter().chain(body_fds.iter()) {
             close(*fd);
         }
         let r = match rx.recv_timeout(Duration::from_millis(400)) {
@@ -146,7 +159,7 @@ pub fn run(line: &str) -> String {
     drop(backend);
     drop(srv_sock);
     drop(peer);
-    let objs = shared.lock().unwrap().objs.clone();
+    let objs = { let sh = shared.lock().unwrap(); sh.all_objs(&sh.objs) };
     let leaked = open_idents(&objs);
     let l = if leaked.is_empty() { "-".to_string() } else { leaked.iter().map(|x| x.to_string()).collect::<Vec<_>>().join(",") };
     obs.push(format!("L={}", l));
